@@ -401,6 +401,14 @@ def c17_data_rules(ctx, rid_roles, rid_mask, rid_lock, rid_color):
     gen = pl.nested.get("gen_xy")
     need(gen is not None, "anchor lost: gen_xy")
     ctx.touch(gen)
+    # canonical role names: the yielded mapping is `data`, the mapping handed to xr.broadcast is `das`
+    ylds_ = [n.value.value for n in walk_shallow(gen.node) if isinstance(n, ast.Expr) and isinstance(n.value, ast.Yield) and isinstance(n.value.value, ast.Name)]
+    if len({y.id for y in ylds_}) == 1:
+        _role_rename(gen, ylds_[0].id, "data")
+    bc_ = {x.args[0].value.func.value.id for x in ast.walk(gen.node) if isinstance(x, ast.Call) and norm(x.func).endswith("broadcast") and len(x.args) == 1 and isinstance(x.args[0], ast.Starred)
+           and isinstance(x.args[0].value, ast.Call) and isinstance(x.args[0].value.func, ast.Attribute) and x.args[0].value.func.attr == "values" and isinstance(x.args[0].value.func.value, ast.Name)}
+    if len(bc_) == 1:
+        _role_rename(gen, bc_.pop(), "das")
     slot = {"x": {"x_coo"}, "y": {"y_coo", None}, "c": {"c_coo"}, "ye": {"y_err"}, "xe": {"x_err"}}
     fam = _family(pl, gen)
     for h_ in fam:
@@ -973,6 +981,45 @@ def _ax_name(f):
     return names.pop()
 
 
+def _role_rename(f, discovered, role):
+    """give the local that plays `role` its canonical name in the analysis' own copy of the tree (texts are compared
+    against the canonical names afterwards); a clash with another use of the canonical name is an AnalysisError"""
+    if discovered == role:
+        return
+    for x in ast.walk(f.node):
+        if isinstance(x, ast.Name) and x.id == role:
+            raise AnalysisError("idiom changed: `%s` names something else than the %s in %s" % (role, role, f.name))
+    for x in ast.walk(f.node):
+        if isinstance(x, ast.Name) and x.id == discovered:
+            x.id = role
+
+
+def _c18_canonical_locals(pl, ph):
+    for f in (pl, ph):
+        locs = [n.targets[0].id for n in walk_shallow(f.node) if isinstance(n, ast.Assign) and isinstance(n.targets[0], ast.Name) and any(isinstance(p_, ast.For) for p_ in _parents(n))
+                and ((isinstance(n.value, ast.Call) and norm(n.value.func) == "dict" and len(n.value.args) == 1 and isinstance(n.value.args[0], ast.Call) and norm(n.value.args[0].func) == "zip")
+                     or (isinstance(n.value, ast.DictComp) and isinstance(n.value.generators[0].iter, ast.Call) and norm(n.value.generators[0].iter.func) == "zip"))
+                and "remaining_dims" in norm(n.value)]
+        need(len(set(locs)) == 1, "anchor lost: the location mapping of %s" % f.name)
+        _role_rename(f, locs[0], "loc")
+    dsl = [n.targets[0].id for n in walk_shallow(pl.node) if isinstance(n, ast.Assign) and isinstance(n.targets[0], ast.Name) and norm(n.value) in ("self.ds.isel(loc)", "self.ds.isel(**loc)")]
+    if len(set(dsl)) == 1:
+        _role_rename(pl, dsl[0], "ds_loc")
+    # the mask x and y are subscripted with at ax.plot
+    for c in walk_shallow(pl.node):
+        if isinstance(c, ast.Call) and isinstance(c.func, ast.Attribute) and c.func.attr == "plot" and len(c.args) >= 2:
+            e = c.args[0]
+            hops = 0
+            while isinstance(e, ast.Name) and hops < 4:
+                d_ = single_def(pl, e.id)
+                if d_ is None:
+                    break
+                e = d_[1]
+                hops += 1
+            if isinstance(e, ast.Subscript) and isinstance(e.slice, ast.Name):
+                _role_rename(pl, e.slice.id, "data_mask")
+
+
 def c18_rules(ctx):
     prog = ctx.prog
     I = prog.need_cls(INF + ".Infiniplotter")
@@ -981,6 +1028,7 @@ def c18_rules(ctx):
     imd = I.methods.get("init_mapped_dim")
     init = I.methods.get("__init__")
     need(pl and ph and imd and init, "anchor lost: Infiniplotter methods")
+    _c18_canonical_locals(pl, ph)
     for f in (pl, ph, imd, init):
         ctx.touch(f)
     roles = {"x", "y", "z", "err", "text"}
@@ -1044,20 +1092,44 @@ def c18_rules(ctx):
     plots = [n for n in g.nodes if any(isinstance(c.func, ast.Attribute) and c.func.attr == "plot" and norm(c.func.value) == AXL for c in node_calls(n))]
     conts = [n for n in g.nodes if n.kind == "stmt" and isinstance(n.ast, ast.Continue)]
     artists = [n for n in g.nodes if any(isinstance(c.func, ast.Attribute) and norm(c.func.value) == AXL and c.func.attr in ("plot", "errorbar", "fill_between", "text", "scatter") for c in node_calls(n))]
-    skip = g.reachable(start=it, blocked_nodes=[p.id for p in plots] + [c.id for c in conts], skip_labels=("exc",)) | {it}
+    # the edge taken by an all-null slice (the "no data" outcome of the np.any(mask) test) is the one permitted way round the loop without a line
+    null_edges = []
+    for tn in [n for n in g.nodes if n.kind == "test"]:
+        e = tn.ast
+        neg = False
+        while isinstance(e, ast.UnaryOp) and isinstance(e.op, ast.Not):
+            e, neg = e.operand, not neg
+        if isinstance(e, ast.Call) and ((norm(e.func) in ("np.any", "numpy.any") and len(e.args) == 1 and isinstance(e.args[0], ast.Name)) or (isinstance(e.func, ast.Attribute) and e.func.attr == "any" and isinstance(e.func.value, ast.Name) and not e.args)):
+            null_edges += [(tn.id, b_, l_) for b_, l_ in g.succ[tn.id] if l_ == ("t" if neg else "f")]
+    skip = g.reachable(start=it, blocked_nodes=[p.id for p in plots], blocked_edges=null_edges, skip_labels=("exc",)) | {it}
     if len(plots) != 1:
         r3.bad(ctx.finding("C18.R3", pl, pl.node, "%d ax.plot calls in the location loop" % len(plots), construct="plot-count"), "one plot")
     elif H.id in skip:
         r3.bad(ctx.finding("C18.R3", pl, plots[0].stmt, "a location can go round the loop without ax.plot and without the all-null `continue`: a slice that has data is not drawn", construct="plot-skipped"), "plot not skipped")
     else:
         r3.ok("every iteration either draws exactly one line or takes the all-null continue")
+    # the all-null test: np.any(<mask>) / <mask>.any(), possibly negated; its "no data" edge goes round the loop without an artist
     okc = False
-    for c in conts:
-        p = getattr(c.ast, "_parent", None)
-        if isinstance(p, ast.If) and norm(p.test) == "not np.any(mask)":
-            tnode = [n for n in g.nodes if n.kind == "test" and n.ast is p.test][0]
-            if all(g.dominates(tnode.id, a.id) for a in artists):
-                okc = True
+    seen_test = False
+    for tn in [n for n in g.nodes if n.kind == "test"]:
+        e = tn.ast
+        neg = False
+        while isinstance(e, ast.UnaryOp) and isinstance(e.op, ast.Not):
+            e, neg = e.operand, not neg
+        is_any = isinstance(e, ast.Call) and ((norm(e.func) in ("np.any", "numpy.any") and len(e.args) == 1 and isinstance(e.args[0], ast.Name)) or (isinstance(e.func, ast.Attribute) and e.func.attr == "any" and isinstance(e.func.value, ast.Name) and not e.args))
+        if not is_any:
+            continue
+        seen_test = True
+        nodata = [b_ for b_, l_ in g.succ[tn.id] if l_ == ("t" if neg else "f")]
+        hasdata = [b_ for b_, l_ in g.succ[tn.id] if l_ == ("f" if neg else "t")]
+        if not nodata or not hasdata:
+            continue
+        art_ids = {a_.id for a_ in artists}
+        r_no = g.reachable(start=nodata[0], blocked_nodes=[H.id], skip_labels=("exc",)) | {nodata[0]}
+        no_artist_when_empty = not (r_no & art_ids) and (nodata[0] == H.id or any(H.id == b2 for x in r_no for b2, _ in g.succ[x]))
+        if no_artist_when_empty and all(g.dominates(tn.id, a_.id) for a_ in artists) and any(p_.id in (g.reachable(start=hasdata[0], blocked_nodes=[H.id], skip_labels=("exc",)) | {hasdata[0]}) for p_ in plots):
+            okc = True
+    need(seen_test, "anchor lost: the all-null test (np.any(mask)) in plot_lines")
     if okc:
         r3.ok("all-null slices are skipped before any artist is created")
     else:
@@ -1382,7 +1454,10 @@ def c18_rules(ctx):
 
     # ---- R12 heat map: whatever aggregate was given, every unmapped dimension is aggregated away
     r12 = ctx.rule("C18.R12", "heat map with unmapped dimensions: aggregate None / a name / a list of names are all widened to 'all unmapped dimensions' (one mesh per panel)", floor=3)
-    blocks = [n for n in ast.walk(init.node) if isinstance(n, ast.If) and "is_heatmap" in norm(n.test) and "unmapped" in norm(n.test)]
+    def _stores_agg(n):
+        return any(isinstance(x, ast.Assign) and norm(x.targets[0]) == "self.aggregate" for x in ast.walk(n))
+    cand_ = [n for n in ast.walk(init.node) if isinstance(n, ast.If) and _stores_agg(n) and "is_heatmap" in " ".join(norm(t.test) for t in ast.walk(n) if isinstance(t, ast.If)) and "unmapped" in " ".join(norm(t.test) for t in ast.walk(n) if isinstance(t, ast.If))]
+    blocks = [n for n in cand_ if not any(n is not m and any(n is x for x in ast.walk(m)) for m in cand_)]
     need(len(blocks) == 1, "anchor lost: the heat-map aggregation default in Infiniplotter.__init__")
     wrapper = ast.parse("def _blk(self):\n    pass\n").body[0]
     wrapper.body = [blocks[0]]
